@@ -158,7 +158,7 @@ func (e *Engine) verifyFunction(fn *ssa.Function, spec *FuncSpec, sweep bool) *F
 		for _, r := range spec.Requires {
 			env := c.newEnv(fr, st, entry)
 			env.entryPar = true
-			t, err := env.evalBool(r.E)
+			t, err := env.evalAssume(r.E)
 			if err != nil {
 				c.contractStale("requires:"+clauseName(r, 0), r.Pos, err, r.Props)
 				continue
@@ -239,7 +239,17 @@ func (c *FnCtx) atReturn(fr *Frame, ex exitInfo, idx, total int) {
 	spec := c.spec
 	st := ex.st
 	bc := &blockCtx{fr: fr, st: st, reach: ex.cond}
+	if spec != nil {
+		rn0 := resultNames(spec, fr.fn.Signature)
+		c.retRes = map[string]Val{}
+		for i, r := range ex.results {
+			if i < len(rn0) {
+				c.retRes[rn0[i]] = r
+			}
+		}
+	}
 	c.runGhostAt(bc, Anchor{Kind: "return"})
+	c.retRes = nil
 	suffix := ""
 	if total > 1 {
 		suffix = fmt.Sprintf("@ret%d", idx)
@@ -324,6 +334,9 @@ func (c *FnCtx) runGhostAt(bc *blockCtx, a Anchor) {
 func (c *FnCtx) bindCallVars(env *Env, bc *blockCtx) {
 	for i, v := range c.callRes {
 		env.vars[fmt.Sprintf("$r%d", i)] = v
+	}
+	for k, v := range c.retRes {
+		env.vars[k] = v
 	}
 }
 
@@ -448,8 +461,17 @@ func (env *Env) unfoldTerm(call *Expr) (t string, err error) {
 
 // ---------------------------------------------------------------- object invariants
 
-func (c *FnCtx) invariantTargets(fr *Frame, spec *FuncSpec) []string {
-	return spec.Preserves
+// preservesOf splits `preserves x -label1 -label2` into targets and excluded invariant labels.
+func preservesOf(spec *FuncSpec) (targets []string, except map[string]bool) {
+	except = map[string]bool{}
+	for _, p := range spec.Preserves {
+		if strings.HasPrefix(p, "-") {
+			except[p[1:]] = true
+		} else {
+			targets = append(targets, p)
+		}
+	}
+	return
 }
 
 func (c *FnCtx) typeSpecOf(t types.Type) *TypeSpec {
@@ -466,7 +488,8 @@ func (c *FnCtx) typeSpecOf(t types.Type) *TypeSpec {
 }
 
 func (c *FnCtx) assumeInvariants(fr *Frame, st, entry *State, spec *FuncSpec) {
-	for _, target := range spec.Preserves {
+	ptargets, pexcept := preservesOf(spec)
+	for _, target := range ptargets {
 		v, ok := fr.params[target]
 		if !ok {
 			c.contractStale("preserves", spec.Pos, fmt.Errorf("preserves: no parameter %s", target), nil)
@@ -477,10 +500,13 @@ func (c *FnCtx) assumeInvariants(fr *Frame, st, entry *State, spec *FuncSpec) {
 			continue
 		}
 		for _, inv := range ts.Invariants {
+			if pexcept[inv.Label] {
+				continue
+			}
 			env := c.newEnv(fr, st, entry)
 			env.self = &v
 			env.vars["self"] = v
-			t, err := env.evalBool(inv.E)
+			t, err := env.evalAssume(inv.E)
 			if err != nil {
 				c.contractStale("invariant:"+inv.Label, inv.Pos, err, inv.Props)
 				continue
@@ -491,7 +517,8 @@ func (c *FnCtx) assumeInvariants(fr *Frame, st, entry *State, spec *FuncSpec) {
 }
 
 func (c *FnCtx) proveInvariants(fr *Frame, st *State, cond string, spec *FuncSpec, suffix string) {
-	for _, target := range spec.Preserves {
+	ptargets, pexcept := preservesOf(spec)
+	for _, target := range ptargets {
 		v, ok := fr.params[target]
 		if !ok {
 			continue
@@ -501,6 +528,9 @@ func (c *FnCtx) proveInvariants(fr *Frame, st *State, cond string, spec *FuncSpe
 			continue
 		}
 		for i, inv := range ts.Invariants {
+			if pexcept[inv.Label] {
+				continue
+			}
 			env := c.newEnv(fr, st, c.top.entrySt)
 			env.entryPar = true
 			env.vars["self"] = v
@@ -877,7 +907,8 @@ func (c *FnCtx) applyContract(bc *blockCtx, spec *FuncSpec, cc *ssa.CallCommon, 
 		}
 	}
 	// callee preserves an object invariant: establish it before the call
-	for _, target := range spec.Preserves {
+	ctargets, cexcept := preservesOf(spec)
+	for _, target := range ctargets {
 		env := mkEnv(bc.st)
 		v, ok := env.vars[target]
 		if !ok {
@@ -885,6 +916,9 @@ func (c *FnCtx) applyContract(bc *blockCtx, spec *FuncSpec, cc *ssa.CallCommon, 
 		}
 		if ts := c.typeSpecOf(v.Ty); ts != nil {
 			for i, inv := range ts.Invariants {
+				if cexcept[inv.Label] {
+					continue
+				}
 				e2 := mkEnv(bc.st)
 				e2.vars["self"] = v
 				t, err := e2.evalBool(inv.E)
@@ -947,23 +981,26 @@ func (c *FnCtx) applyContract(bc *blockCtx, spec *FuncSpec, cc *ssa.CallCommon, 
 		}
 	}
 	for i, en := range append(append([]Clause(nil), spec.Ensures...), spec.TrustedEnsures...) {
-		t, err := post.evalBool(en.E)
+		t, err := post.evalAssume(en.E)
 		if err != nil {
 			c.contractStale("call:"+label+":ensures:"+clauseName(en, i), en.Pos, err, nil)
 			continue
 		}
 		c.sc.assert(sImp(bc.reach, t))
 	}
-	for _, target := range spec.Preserves {
+	for _, target := range ctargets {
 		v, ok := post.vars[target]
 		if !ok {
 			continue
 		}
 		if ts := c.typeSpecOf(v.Ty); ts != nil {
 			for _, inv := range ts.Invariants {
+				if cexcept[inv.Label] {
+					continue
+				}
 				e2 := mkEnv(st)
 				e2.vars["self"] = v
-				if t, err := e2.evalBool(inv.E); err == nil {
+				if t, err := e2.evalAssume(inv.E); err == nil {
 					c.sc.assert(sImp(bc.reach, t))
 				}
 			}
@@ -1033,6 +1070,8 @@ func (c *FnCtx) checkGuard(bc *blockCtx, l *Loc, write bool, pos token.Pos) {
 			lockExpr = g.Read
 		}
 		goal := c.guardTerm(bc.st, l, lockExpr, write)
+		// an object allocated by this call is not shared yet
+		goal = sOr("(> "+l.Base+" "+c.top.entrySt.alloc+")", goal)
 		kind := "read"
 		if write {
 			kind = "write"
